@@ -1,0 +1,73 @@
+//go:build verif
+
+// Contracts for the verification machinery in /verif (comment-only, built only with -tags verif).
+
+package main
+
+// ---- C02 / C06: how the controller asks the allocator for addresses ----
+// the address family of the Service's cluster IPs (internal/ipfamily.ForService) and the user's explicit request
+// (annotation or spec.loadBalancerIP) are read-only functions of the Service
+//@ ufun WantIPs(*v1.Service) []net.IP
+//@ func getDesiredLbIPs
+//@   trusted
+//@   ensures result2 != nil ==> result0 == nil
+//@   ensures result2 == nil ==> result0 == WantIPs(svc)
+//@   modifies fresh []net.IP, fresh []string, fresh []interface{}
+//@ func valueForAnnotation
+//@   ensures result == ite(stableAnnotation in annotations, annotations[stableAnnotation], ite(deprecatedAnnotation in annotations, annotations[deprecatedAnnotation], ""))
+//@   modifies nothing
+//@ func SharingKey
+//@   trusted
+//@   pure
+//@   modifies nothing
+
+// allocateIPs: an explicit address request is honoured exactly or refused (also when it contradicts the requested
+// pool: the tentative assignment is undone); a requested pool is the only pool used; otherwise automatic allocation.
+//@ func (*controller).allocateIPs
+//@   requires c != nil && allocator.AllocatorOK(c.ips) && svc != nil && c.ips.allocated[key] == nil && lockstate(c.ips.countersMutex) == 0
+//@   ensures [inv] allocator.Inv(c.ips)
+//@   ensures [others] forall s string :: s != key ==> c.ips.allocated[s] == old(c.ips.allocated[s])
+//@   ensures [refused] result1 != nil ==> result0 == nil && c.ips.allocated[key] == nil
+//@   ensures [recorded] result1 == nil ==> c.ips.allocated[key] != nil && sameSlice(c.ips.allocated[key].ips, result0)
+//@   ensures [explicit] result1 == nil && len(WantIPs(svc)) > 0 ==> sameSlice(result0, WantIPs(svc))
+//@   ensures [poolHonoured] result1 == nil && len(WantIPs(svc)) > 0 && valueForAnnotationSpec(svc) != "" ==> c.ips.allocated[key].pool == valueForAnnotationSpec(svc)
+//@   ensures [namedPool] result1 == nil && len(WantIPs(svc)) == 0 && valueForAnnotationSpec(svc) != "" ==> allocator.InNamedPool(c.ips, valueForAnnotationSpec(svc), result0)
+//@   ensures [auto] result1 == nil && len(WantIPs(svc)) == 0 && valueForAnnotationSpec(svc) == "" ==> allocator.AutoListed(c.ips, result0)
+//@   modifies map[string]*allocator.alloc, map[allocator.Port]string, map[string]bool, map[string]int, map[string]allocator.PoolCounters, fresh *ipaddr.Prefix, fresh *ipaddr.Cursor, fresh *ipaddr.Position, fresh []ipaddr.Prefix, gint("cursor.pos"), fresh []string, fresh []interface{}, fresh *allocator.alloc, fresh []allocator.Port, fresh *allocator.key, fresh *allocator.Allocation, fresh []net.IP, fresh []*config.Pool, $held
+//@ fun valueForAnnotationSpec(svc *v1.Service) string := ite(AnnotationAddressPool in svc.Annotations, svc.Annotations[AnnotationAddressPool], ite(DeprecatedAnnotationAddressPool in svc.Annotations, svc.Annotations[DeprecatedAnnotationAddressPool], ""))
+
+// ---- C07 / C03: events that free addresses request a full re-sync; configuration changes re-home allocations ----
+//@ func (*controller).isServiceAllocated
+//@   requires c != nil && c.ips != nil && c.ips.allocated != nil
+//@   ensures result == (c.ips.allocated[key] != nil && c.ips.allocated[key].pool != "")
+//@   modifies nothing
+
+// SetBalancer (controller): only the branches before the Service is copied are specified here: a deleted Service that
+// held an allocation is released and every Service is re-processed (a waiting one may now get the address); without
+// configuration nothing is touched. The rest of the function (DeepCopy, reflect.DeepEqual, status write) is abstracted.
+//@ func (*controller).SetBalancer
+//@   abstract
+//@   requires c != nil && allocator.AllocatorOK(c.ips) && lockstate(c.ips.countersMutex) == 0
+//@   ensures [released] svcRo == nil && old(c.ips.allocated[name] != nil && c.ips.allocated[name].pool != "") ==> result == controllers.SyncStateReprocessAll && c.ips.allocated[name] == nil
+//@   ensures [releasedOthers] svcRo == nil ==> (forall s string :: s != name ==> c.ips.allocated[s] == old(c.ips.allocated[s])) && allocator.Inv(c.ips)
+//@   ensures [nothingToDo] svcRo == nil && !old(c.ips.allocated[name] != nil && c.ips.allocated[name].pool != "") ==> result == controllers.SyncStateSuccess && (forall s string :: c.ips.allocated[s] == old(c.ips.allocated[s]))
+//@   ensures [noConfig] svcRo != nil && old(c.pools == nil || c.pools.ByName == nil) ==> result == controllers.SyncStateSuccess && (forall s string :: c.ips.allocated[s] == old(c.ips.allocated[s]))
+
+// SetPools (controller): a usable configuration is handed to the allocator (which keeps every still admissible
+// allocation, see allocator.SetPools) and every Service is re-processed.
+//@ func (*controller).SetPools
+//@   requires c != nil && allocator.Inv(c.ips) && allocator.InvD(c.ips) && c.ips.countersChangedCallback != nil && lockstate(c.ips.countersMutex) == 0 && allocator.PoolsOK(c.ips.pools.ByName)
+//@   requires pools != nil && pools.ByName != nil ==> allocator.PoolsKeyedOK(pools.ByName) && allocator.NewIndexDistinct(c.ips, pools)
+//@   ensures [missing] (pools == nil || old(pools.ByName == nil)) ==> result == controllers.SyncStateErrorNoRetry && (forall s string :: c.ips.allocated[s] == old(c.ips.allocated[s])) && c.pools == old(c.pools)
+//@   ensures [applied] pools != nil && old(pools.ByName != nil) ==> result == controllers.SyncStateReprocessAll && c.pools == pools && c.ips.pools == pools && allocator.Inv(c.ips)
+//@   ensures [kept] pools != nil && old(pools.ByName != nil) ==> (forall s string :: old(c.ips.allocated[s]) != nil && old(allocator.StillIn(pools.ByName, c.ips.allocated[s])) ==> c.ips.allocated[s] == old(c.ips.allocated[s]))
+//@   ensures [noNew] forall s string :: c.ips.allocated[s] != nil ==> c.ips.allocated[s] == old(c.ips.allocated[s])
+//@   modifies map[string]*allocator.alloc, map[allocator.Port]string, map[string]bool, map[string]int, map[string]allocator.PoolCounters, allocator.alloc.pool, allocator.Allocator.pools, controller.pools, fresh *ipaddr.Prefix, fresh *ipaddr.Cursor, fresh *ipaddr.Position, fresh []ipaddr.Prefix, gint("cursor.pos"), fresh []string, fresh []interface{}, $held
+
+// convergeBalancer is not verified yet: only its frame (what it may write) and that it leaves the counters lock free
+// are assumed where SetBalancer calls it.
+//@ func (*controller).convergeBalancer
+//@   trusted
+//@   requires c != nil && svc != nil
+//@   ensures lockstate(c.ips.countersMutex) == 0 && lockframe(c.ips.countersMutex)
+//@   modifies map[string]*allocator.alloc, map[allocator.Port]string, map[string]bool, map[string]int, map[string]allocator.PoolCounters, map[string]string, v1.LoadBalancerStatus.Ingress, k8s.io/apimachinery/pkg/apis/meta/v1.ObjectMeta.Annotations, fresh *ipaddr.Prefix, fresh *ipaddr.Cursor, fresh *ipaddr.Position, fresh []ipaddr.Prefix, gint("cursor.pos"), fresh []string, fresh []interface{}, fresh *allocator.alloc, fresh []allocator.Port, fresh *allocator.key, fresh *allocator.Allocation, fresh []net.IP, fresh []*config.Pool, fresh []v1.LoadBalancerIngress, $held
